@@ -221,6 +221,7 @@ func c20Run(c *lib.Ctx) {
 			}
 		}
 	}
+	c20Processes(c)
 	// white space: what the CLI does first with its arguments
 	if c.Shard == 0 {
 		pads := []func(string) string{
@@ -253,7 +254,7 @@ func c20Run(c *lib.Ctx) {
 func init() {
 	lib.Register(&lib.Check{
 		ID: "C20", Level: "model_checking",
-		Rule: "every query (all 1- and 2-word sequences over the lower-cased 20-word alphabet + 26 typo / NLP / non-ASCII queries) x every case re-spelling (all 2^n patterns when the query has n<=6 cased letters, else lower/UPPER/Title/alternating/last-letter) x paths {lexical, NLP, fuzzy thr 0, fuzzy thr -30, NLP+fuzzy, cached (q then Q, served from q's entry, also compared with a fresh search of Q), suggestions} x databases (all subsets of <=2 of 10 pool entries incl. upper-case and non-ASCII text, the 40-entry database, a Cyrillic/Greek/Latin-1 database, a database with the NLP expansion vocabulary): answers must be bit-identical to the lower-case spelling's; 6 white-space paddings of every query through ValidateQuery. Letters re-cased only between ToLower/ToUpper forms that are mutually inverse and fold-equivalent. evaluations = searches; non-trivial = pairs with a non-empty answer",
+		Rule:      "every query (all 1- and 2-word sequences over the lower-cased 22-word alphabet + 26 typo / NLP / non-ASCII queries) x every case re-spelling (all 2^n patterns when the query has n<=6 cased letters, else lower/UPPER/Title/alternating/last-letter) x paths {lexical, NLP, fuzzy thr 0, fuzzy thr -30, NLP+fuzzy, cached (q then Q, served from q's entry, also compared with a fresh search of Q), suggestions} x databases (all subsets of <=2 of 10 pool entries incl. upper-case and non-ASCII text, the 40-entry database, a Cyrillic/Greek/Latin-1 database, a database with the NLP expansion vocabulary): answers must be bit-identical to the lower-case spelling's; 6 white-space paddings of every query through ValidateQuery. Letters re-cased only between ToLower/ToUpper forms that are mutually inverse and fold-equivalent. evaluations = searches; non-trivial = pairs with a non-empty answer",
 		Assume:    []string{"map order pinned, host pinned", "CLI-level padding and case pairs are checked at process level in C17"},
 		QuickSecs: 150, ThorSecs: 900,
 		Run: c20Run,
